@@ -199,12 +199,17 @@ def generate(rng, seed, size):
     # and a pair under the same serialize_all style in which prefix + identifier of one enum spell the identifier of the other
     # (`prefix = "Raw"` + `Mode` / `RawMode`): names derived for one enum must not be handed to the other
     n_pair = 0 if minimal else 2
-    for ei in range(target + n_shared + n_optional + n_bare + n_reent + n_pair):
+    # and one more prefixed enum whose prefix is as long as the pair's ("Raw" / "Xy_"): what is prepended is the enum's own prefix
+    n_eqlen = 0 if minimal else 1
+    for ei in range(target + n_shared + n_optional + n_bare + n_reent + n_pair + n_eqlen):
         shared_enum = target <= ei < target + n_shared
         optional_enum = target + n_shared <= ei < target + n_shared + n_optional
         bare_enum = target + n_shared + n_optional <= ei < target + n_shared + n_optional + n_bare
         reent_enum = target + n_shared + n_optional + n_bare <= ei < target + n_shared + n_optional + n_bare + n_reent
         pair_enum = ei - (target + n_shared + n_optional + n_bare + n_reent) if ei >= target + n_shared + n_optional + n_bare + n_reent else None
+        eqlen_enum = pair_enum is not None and pair_enum >= n_pair
+        if eqlen_enum:
+            pair_enum = None
         ename = "D%d" % ei
         block_start = len(out)
         out.append("// @case-begin %s%s\n" % (ename, " optional" if optional_enum else ""))
@@ -212,7 +217,7 @@ def generate(rng, seed, size):
         nvar = rng.randint(1, 7)
         if shared_enum:
             prefix, nvar = None, len(SHARED_IDENTS)
-        if optional_enum or bare_enum or reent_enum or pair_enum is not None:
+        if optional_enum or bare_enum or reent_enum or pair_enum is not None or eqlen_enum:
             prefix, nvar = None, 1
         # serialize_all: only together with identifiers whose word splitting is unambiguous (casing.py)
         style = rng.choice(casing.STYLES) if (rng.random() < 0.3 and not minimal) else None
@@ -220,6 +225,8 @@ def generate(rng, seed, size):
             style = None
         if pair_enum is not None:
             style = "snake_case"
+        if eqlen_enum:
+            style = None
         # systematic part: the first enums cover every serialize_all style, each with a variant named by its
         # (non-ASCII) identifier alone
         forced_style = (not robust) and ei < len(casing.STYLES)
@@ -344,6 +351,12 @@ def generate(rng, seed, size):
                 nv["literal"] = seg0 + body + seg1
                 nv["attrs"] = ["#[strum(to_string = %s)]" % rs(nv["literal"])]
                 variants.insert(wr.randrange(0, len(variants) + 1), nv)
+        if shared_enum and ei == target:
+            # the enum that is moved to the FRONT also carries the bare placeholder literals that come again in the very last
+            # enums: a literal seen long ago must still mean what it says
+            for (kind, tys, fnames, lit) in [("tuple", ["i64"], [], "{0}"), ("tuple", ["i64", "f64"], [], "{0}{1}"), ("named", ["i64"], ["x"], "{x}")]:
+                variants.append(dict(ident="P%d" % len(variants), kind=kind, disabled=False, attrs=["#[strum(to_string = %s)]" % rs(lit)],
+                                     fixed=None, literal=lit, tys=tys, fnames=fnames, ref=None, used=list(range(len(tys)))))
         if bare_enum:
             variants = []
             for (kind, tys, fnames, lit) in [("tuple", ["i64"], [], "{0}"), ("tuple", ["f64"], [], "{0}"), ("tuple", ["String"], [], "{0}"),
@@ -363,6 +376,10 @@ def generate(rng, seed, size):
                     ("tuple", ["u8"], [], ['#[strum(serialize = "nine_char")]', '#[strum(serialize = "a{{b}}c{{d")]'], "a{{b}}c{{d")]:
                 variants.append(dict(ident="B%d" % len(variants), kind=kind, disabled=False, attrs=attrs, fixed=canon, literal=None,
                                      tys=tys, fnames=fnames, ref=None))
+        if eqlen_enum:
+            variants = []
+            for (ident, kind, tys, fnames) in [("TooHot", "unit", [], []), ("Idle", "tuple", ["u8"], []), ("Busy", "named", ["i64"], ["a"])]:
+                variants.append(dict(ident=ident, kind=kind, disabled=False, attrs=[], fixed=ident, literal=None, tys=tys, fnames=fnames, ref=None))
         if pair_enum is not None:
             variants = []
             pair_prefix = "Raw" if pair_enum == 0 else None
@@ -395,6 +412,8 @@ def generate(rng, seed, size):
             prefix = ["{", "{{x", "x{", "{{", "é{"][ei - 11]
         elif pair_enum is not None:
             prefix = pair_prefix
+        elif eqlen_enum:
+            prefix = "Xy_"
         elif not robust and not shared_enum and not optional_enum and not bare_enum and not reent_enum:
             r = rng.random()
             if r < 0.08 and not has_interp:
@@ -410,7 +429,7 @@ def generate(rng, seed, size):
         decl = "<'a>" if uses_lt else ""
         inst = "<'static>" if uses_lt else ""
         # a type parameter (never displayed: Display is derived without bounds) in a fixed-name variant
-        if not uses_lt and not robust and not shared_enum and not optional_enum and not bare_enum and not reent_enum and pair_enum is None and rng.random() < 0.12:
+        if not uses_lt and not robust and not shared_enum and not optional_enum and not bare_enum and not reent_enum and pair_enum is None and not eqlen_enum and rng.random() < 0.12:
             decl, inst = "<T>", "<u8>"
             gv = dict(ident="Gen%d" % len(variants), kind=rng.choice(["tuple", "named"]), disabled=False, attrs=[], fixed=None,
                       literal=None, tys=["T"], fnames=["gen_field"], ref=None)
